@@ -13,7 +13,7 @@ variable (cfg : Cfg) (sfh : Bool)
     left-hand type too). -/
 def Ty.TG (sfh : Bool) (t : Ty) : Prop :=
   match t with
-  | .unit | .data | .richData => False
+  | .unit | .data | .richData | .callable _ _ _ => False
   | .struct ms => sfh = false ∧ NamesNodup ms ∧ ∀ m, ∀ (_ : m ∈ ms), Ty.TG sfh m.2.2
   | .tuple ts _ => ∀ t', ∀ (_ : t' ∈ ts), Ty.TG sfh t'
   | .array e _ => Ty.TG sfh e
